@@ -66,6 +66,22 @@ func (x *Exec) invName(li *loopInfo, i int, c *Clause) string {
 // goTo transfers control from block `from` to block `to` in the current frame.
 func (x *Exec) goTo(st *State, from, to *ssa.BasicBlock) {
 	fr := st.fr
+	// the loop's own test ends it: edge from the head of a loop under contract to a block outside it
+	if fr.parent == nil && fr.fn == x.fn && from != nil {
+		if lf := x.loopsOf(fr.fn)[from]; lf != nil && lf.lc != nil && len(lf.lc.Exit) > 0 && !lf.body[to] && lf.head == from {
+			env := x.envAt(st)
+			for _, a := range lf.lc.Exit {
+				old, ok := st.ghost[a.Var]
+				if !ok {
+					panic(specErr{fmt.Sprintf("%s: exit set of undeclared ghost %s", x.name, a.Var)})
+				}
+				v := x.evalTerm(env, a.C)
+				n := x.D.Fresh("gh_"+a.Var, old.Sort)
+				st.Assume(Eq(n, v))
+				st.ghost[a.Var] = n
+			}
+		}
+	}
 	li := x.loopsOf(fr.fn)[to]
 	if li != nil && fr.parent == nil && fr.fn == x.fn && x.fc != nil && x.fc.Opts["unroll"] != "" && li.lc == nil {
 		// constant-trip loop (e.g. a range over a composite literal): unrolled with an unwinding
